@@ -194,6 +194,17 @@ HARMLESS = [
         ("        if isinstance(pair, str):\n            try:\n                k, v = pair.split(sep, 1)",
          "        if type(pair) is str or isinstance(pair, str):\n            try:\n                k, v = pair.split(sep, 1)"),
     ], ['C19']),
+    ('batcher: failure handler logs whether all slots are busy', 'aiuti/asyncio.py', [
+        ("            logger.debug(\"Exception while processing batch\", exc_info=True)",
+         "            logger.debug(\"Exception while processing batch (all slots busy: %s)\", self._semaphore.locked(), exc_info=True)"),
+    ], ['C04', 'C10', 'C15']),
+    ('batcher: drain logs when the queue is empty afterwards', 'aiuti/asyncio.py', [
+        ("            except AioQueueEmpty:\n                pass\n            else:\n                continue",
+         "            except AioQueueEmpty:\n                pass\n            else:\n                if q.empty():\n                    logger.debug('queue drained')\n                continue"),
+    ], ['C10']),
+    ('filelock: path converted with os.fspath', 'aiuti/filelock.py', [
+        ("        self._lock_file: PathLike = lock_file", "        self._lock_file: PathLike = os.fspath(lock_file)"),
+    ], ['C02', 'C12']),
 ]
 
 
